@@ -11,6 +11,7 @@ import (
 	"os"
 	"path/filepath"
 	"sort"
+	"strconv"
 	"strings"
 	"sync"
 
@@ -49,6 +50,7 @@ type Ctx struct {
 	tcache   map[string]types.Type
 	files    map[*token.File]*ast.File
 	devirts  map[string]string
+	mapKeys  map[string][]string
 	devirtT  map[string]types.Type
 	typeInv  map[string][2]string
 	synth    map[*ssa.Function]*Contract
@@ -174,12 +176,54 @@ func (ctx *Ctx) contractOf(fn *ssa.Function) *Contract {
 				ctx.mu.Lock()
 				c.Requires = append(append([]*Clause{}, sc.Requires...), c.Requires...)
 				c.Ensures = append(c.Ensures, sc.Ensures...)
+				c.Assumes = append(c.Assumes, sc.Assumes...)
 				ctx.mu.Unlock()
 			}
 		}
 		return c
 	}
 	return ctx.synthContract(fn)
+}
+
+// schemasFor: schema templates applying to fn.
+func (ctx *Ctx) schemasFor(fn *ssa.Function) []*Schema {
+	if fn.Pkg == nil || fn.Signature.Recv() != nil || fn.Parent() != nil {
+		return nil
+	}
+	var out []*Schema
+	for _, s := range ctx.cs.Schemas {
+		if s.Pkg == fn.Pkg.Pkg.Path() && s.Re.MatchString(fn.Name()) {
+			if s.Except != nil && s.Except.MatchString(fn.Name()) {
+				continue
+			}
+			if s.TypeName != "" {
+				// only functions with exactly the signature of the named function type
+				obj := fn.Pkg.Pkg.Scope().Lookup(s.TypeName)
+				if obj == nil {
+					continue
+				}
+				sig, ok := obj.Type().Underlying().(*types.Signature)
+				if !ok || !types.Identical(sig, fn.Signature) {
+					continue
+				}
+			}
+			out = append(out, s)
+		}
+	}
+	return out
+}
+
+func (ctx *Ctx) schemaForType(t types.Type) *Schema {
+	n, ok := t.(*types.Named)
+	if !ok || n.Obj().Pkg() == nil {
+		return nil
+	}
+	for _, s := range ctx.cs.Schemas {
+		if s.TypeName != "" && s.Pkg == n.Obj().Pkg().Path() && s.TypeName == n.Obj().Name() {
+			return s
+		}
+	}
+	return nil
 }
 
 // resolveDirectives turns devirt/typeinv directives into type-keyed tables.
@@ -211,7 +255,7 @@ func (ctx *Ctx) resolveDirectives() {
 // synthContract: functions without a written contract get the type invariants of their parameters as requires/ensures
 // (frame inferred). Returns nil when no parameter type has an invariant.
 func (ctx *Ctx) synthContract(fn *ssa.Function) *Contract {
-	if len(ctx.typeInv) == 0 || fn.Blocks == nil || !ctx.isRepoFunc(fn) || fn.Pkg == nil {
+	if (len(ctx.typeInv) == 0 && len(ctx.cs.Schemas) == 0) || fn.Blocks == nil || !ctx.isRepoFunc(fn) || fn.Pkg == nil {
 		return nil
 	}
 	ctx.mu.Lock()
@@ -221,6 +265,14 @@ func (ctx *Ctx) synthContract(fn *ssa.Function) *Contract {
 	}
 	ctx.mu.Unlock()
 	var c *Contract
+	for _, sch := range ctx.schemasFor(fn) {
+		if c == nil {
+			c = &Contract{Func: fn.Name(), Pkg: fn.Pkg.Pkg.Path(), Invs: map[int][]*Clause{}, Decr: map[int]*Clause{}, NoTerm: map[int]bool{}, Unroll: map[int]int{}, File: "(schema " + sch.Name + ")", Synth: true}
+		}
+		c.Requires = append(c.Requires, sch.C.Requires...)
+		c.Ensures = append(c.Ensures, sch.C.Ensures...)
+		c.Assumes = append(c.Assumes, sch.C.Assumes...)
+	}
 	for _, p := range fn.Params {
 		ti, ok := ctx.typeInv[typeKeyFull(p.Type())]
 		if !ok || p.Name() == "_" || p.Name() == "" {
@@ -229,13 +281,16 @@ func (ctx *Ctx) synthContract(fn *ssa.Function) *Contract {
 		if c == nil {
 			c = &Contract{Func: fn.Name(), Pkg: fn.Pkg.Pkg.Path(), Invs: map[int][]*Clause{}, Decr: map[int]*Clause{}, NoTerm: map[int]bool{}, Unroll: map[int]int{}, File: "(type invariant)", Synth: true}
 		}
-		text := ti[1] + "(" + p.Name() + ")"
+		reqOnly := strings.HasPrefix(ti[1], "?")
+		text := strings.TrimPrefix(ti[1], "?") + "(" + p.Name() + ")"
 		f, err := parseFormula(text)
 		if err != nil {
 			continue
 		}
 		c.Requires = append(c.Requires, &Clause{Kind: "requires", F: f, Text: text, File: "(typeinv " + typeKey(p.Type()) + ")"})
-		c.Ensures = append(c.Ensures, &Clause{Kind: "ensures", F: f, Text: text, File: "(typeinv " + typeKey(p.Type()) + ")"})
+		if !reqOnly {
+			c.Ensures = append(c.Ensures, &Clause{Kind: "ensures", F: f, Text: text, File: "(typeinv " + typeKey(p.Type()) + ")"})
+		}
 	}
 	ctx.mu.Lock()
 	if ctx.synth == nil {
@@ -308,6 +363,14 @@ func (ctx *Ctx) parseType(pkg *types.Package, s string) types.Type {
 	tv, err := types.Eval(ctx.fset, pkg, token.NoPos, s)
 	if err == nil && tv.IsType() {
 		t = tv.Type
+	} else if strings.HasPrefix(s, "*") {
+		if inner := ctx.parseType(pkg, s[1:]); inner != nil {
+			t = types.NewPointer(inner)
+		}
+	} else if strings.HasPrefix(s, "[]") {
+		if inner := ctx.parseType(pkg, s[2:]); inner != nil {
+			t = types.NewSlice(inner)
+		}
 	} else if i := strings.Index(s, "."); i > 0 && !strings.ContainsAny(s, "[]* ") {
 		// qualified name: imports are file-scoped, so resolve through the package's import list (or any loaded package)
 		pn, tn := s[:i], s[i+1:]
@@ -659,8 +722,100 @@ func (ctx *Ctx) ifaceWriteSet(it types.Type, m *types.Func) map[string]bool {
 	return out
 }
 
+// constMapLookup: lookups in package-level map[string]T registries initialised by a composite literal: for every literal key k,
+// key == k implies ok (the registry is assumed unmodified, as the properties state). Values stay uninterpreted.
 func (ctx *Ctx) constMapLookup(e *Enc, fr *Frame, x *ssa.Lookup, mv, kv Val, mt *types.Map) (Val, bool) {
-	return Val{}, false
+	if !x.CommaOk || !isString(mt.Key()) {
+		return Val{}, false
+	}
+	ld, ok := x.X.(*ssa.UnOp)
+	if !ok {
+		return Val{}, false
+	}
+	g, ok := ld.X.(*ssa.Global)
+	if !ok || g.Pkg == nil {
+		return Val{}, false
+	}
+	keys := ctx.globalMapKeys(g)
+	if len(keys) == 0 {
+		return Val{}, false
+	}
+	r := e.havocVal(x.Type(), "maplk")
+	okTerm := r.L[len(r.L)-1]
+	st := State{cur: map[string]string{}}
+	for k, v := range fr.out {
+		_ = k
+		_ = v
+	}
+	_ = st
+	var hits []string
+	cur := e.curState
+	if cur == nil {
+		return Val{}, false
+	}
+	for _, k := range keys {
+		if len(k) > 8 {
+			continue
+		}
+		hits = append(hits, e.strEqLit(cur, kv, k))
+	}
+	e.assume(imp(e.curReach, imp(or(hits...), okTerm)))
+	e.note("assumed: registry map " + g.Name() + " holds its literal keys (not modified at run time)")
+	return r, true
+}
+
+func (ctx *Ctx) globalMapKeys(g *ssa.Global) []string {
+	key := g.Pkg.Pkg.Path() + "." + g.Name()
+	ctx.mu.Lock()
+	if ctx.mapKeys == nil {
+		ctx.mapKeys = map[string][]string{}
+	}
+	if ks, ok := ctx.mapKeys[key]; ok {
+		ctx.mu.Unlock()
+		return ks
+	}
+	ctx.mu.Unlock()
+	var ks []string
+	if p := ctx.pkgs[g.Pkg.Pkg.Path()]; p != nil {
+		for _, f := range p.Syntax {
+			ast.Inspect(f, func(n ast.Node) bool {
+				var lhs, rhs ast.Expr
+				switch s := n.(type) {
+				case *ast.AssignStmt:
+					if len(s.Lhs) == 1 && len(s.Rhs) == 1 {
+						lhs, rhs = s.Lhs[0], s.Rhs[0]
+					}
+				case *ast.ValueSpec:
+					if len(s.Names) == 1 && len(s.Values) == 1 {
+						lhs, rhs = s.Names[0], s.Values[0]
+					}
+				}
+				id, ok := lhs.(*ast.Ident)
+				if !ok || id.Name != g.Name() {
+					return true
+				}
+				cl, ok := rhs.(*ast.CompositeLit)
+				if !ok {
+					return true
+				}
+				for _, el := range cl.Elts {
+					if kv, ok := el.(*ast.KeyValueExpr); ok {
+						if bl, ok := kv.Key.(*ast.BasicLit); ok && bl.Kind == token.STRING {
+							if s, err := strconv.Unquote(bl.Value); err == nil {
+								ks = append(ks, s)
+							}
+						}
+					}
+				}
+				return true
+			})
+		}
+	}
+	sort.Strings(ks)
+	ctx.mu.Lock()
+	ctx.mapKeys[key] = ks
+	ctx.mu.Unlock()
+	return ks
 }
 
 func (ctx *Ctx) sortedFuncKeys() []string {
